@@ -22,15 +22,17 @@ func parseBuildConfigs(r io.Reader) ([]buildConfig, error) {
 	i := 0
 	for {
 		line, err := br.ReadString('\n')
-		if err != nil {
-			if err == io.EOF {
-				break
-			} else {
-				return nil, err
-			}
+		if err != nil && err != io.EOF {
+			return nil, err
 		}
+		// The last line may lack a trailing newline, in which case
+		// ReadString returns it together with io.EOF.
+		eof := err == io.EOF
 		line = strings.TrimSpace(line)
 		if line == "" {
+			if eof {
+				break
+			}
 			continue
 		}
 		name, envs, flags, err := parseBuildConfig(line)
@@ -46,6 +48,9 @@ func parseBuildConfigs(r io.Reader) ([]buildConfig, error) {
 		builds = append(builds, bc)
 
 		i++
+		if eof {
+			break
+		}
 	}
 	return builds, nil
 }
